@@ -781,6 +781,31 @@ def large_batch_oracle(ctx, uo):
                               broken="oracle (one key per output element) / C06_keys_never_shared")
 
 
+def support_edge_oracle(ctx, uo):
+    """Batched == unbatched ALSO where the log-density is -inf (points outside a bounded support) or the input is non-finite:
+    element I of the batched call equals the unbatched call on that element, as a CLASS (-inf stays -inf).  (Seeded change C06d
+    gave unbatched calls their own clean-up of non-finite values.)"""
+    import jax.numpy as jnp
+    import flowjax.distributions as D
+    from flowjax.bijections import Affine
+
+    dists = [("Uniform", D.Uniform(-1.0, 2.0)), ("Exponential", D.Exponential(1.5)), ("LogNormal", D.LogNormal(0.2, 0.7)),
+             ("Uniform[2]", D.Uniform(jnp.asarray([-1.0, 0.0]), jnp.asarray([2.0, 0.5]))),
+             ("Transformed(Uniform, Affine)", D.Transformed(D.Uniform(0.0, 1.0), Affine(1.0, 2.0))), ("Normal", D.Normal(0.0, 1.0))]
+    pts = [-5.0, -1.0, 0.0, 0.25, 2.0, 2.5, 1e6, -1e-300, float("inf"), float("-inf"), float("nan")]
+    for name, d in dists:
+        xs = np.array(pts) if d.shape == () else np.stack([np.array(pts), np.array(pts[::-1])], axis=-1)
+        batched = np.asarray(d.log_prob(jnp.asarray(xs)), dtype=float)
+        for i in range(len(pts)):
+            single = float(d.log_prob(jnp.asarray(xs[i])))
+            uo.count(("support-edge", name, i), nontrivial=not np.isfinite(batched[i]), tag="support-edge")
+            same = (np.isnan(single) and np.isnan(batched[i])) or single == batched[i] or abs(single - batched[i]) <= 1e-12 * max(1.0, abs(single))
+            if not same:
+                ctx.violation(sig=f"support-edge:{name}", what=f"{name}.log_prob: element {i} of the batched call is {batched[i]!r} but the unbatched call on x = {np.ravel(xs[i]).tolist()} gives {single!r}",
+                              case=dict(unit="support-edge", dist=name, x=np.ravel(xs[i]).tolist()), found_input=True, unit=uo.name,
+                              expected=float(batched[i]), observed=single, broken="oracle: batched element == unbatched call (also at -inf)")
+
+
 def run(ctx):
     zoo_seed = int(ctx.seed)
     numpy_unit(ctx)
@@ -834,6 +859,7 @@ def run(ctx):
         "empty sample_shape/condition batch (size 0): sample raises (modelled as Err EReshape); the oracle treats it as outside the statement",
     ]
     large_batch_oracle(ctx, uo)
+    support_edge_oracle(ctx, uo)
 
 
 def replay(ctx, rep):
